@@ -735,3 +735,69 @@ pub fn op_levels() -> impl Strategy<Value = Vec<OpLevel>> {
             levels
         })
 }
+
+// ---------------------------------------------------------------------------------------
+// layout rendering for Layout-rule grammars (C14)
+
+const L_WS: &[&str] = &["", " ", "\n", "\t ", "  \n", ""];
+const L_LINE: &[&str] = &["", " ", "// c\n", " //\n", "\n// a b\n  ", "//x\n//y\n", ""];
+const L_BLOCK: &[&str] = &[
+    "",
+    " ",
+    "/* x */",
+    " /* a b */ ",
+    "/* a /* nested */ b */",
+    "// c\n",
+    "/**/",
+    "\n/* 1 */ /* 2 */\n",
+    "/* * x / y */",
+    "",
+];
+
+pub fn layout_pool(kind: Option<LayoutKind>) -> &'static [&'static str] {
+    match kind {
+        None => WS_UNI,
+        Some(LayoutKind::Ws) => L_WS,
+        Some(LayoutKind::WsLine) => L_LINE,
+        Some(LayoutKind::WsLineBlock) | Some(LayoutKind::WsLineBlockPlus) => L_BLOCK,
+    }
+}
+
+/// Render tokens with layout runs drawn from the pool of the given layout mode.
+/// `minimal` uses the empty layout wherever the terminals permit.
+pub fn render_with_layout(
+    terms: &[TermSpec],
+    toks: &[usize],
+    kind: Option<LayoutKind>,
+    minimal: bool,
+    tape: &mut Cursor,
+) -> Rendered {
+    let pool = layout_pool(kind);
+    let mut text = String::new();
+    let mut spans = vec![];
+    let mut layouts = vec![];
+    let mut prev_regex = false;
+    let mut prev_text = String::new();
+    for (i, t) in toks.iter().enumerate() {
+        let term = &terms[*t];
+        let mut ws: String = if minimal { String::new() } else { pool[tape.pick(pool.len())].to_string() };
+        let sample = &term.samples[tape.pick(term.samples.len())];
+        // two adjacent regex tokens need a separator; so do tokens that would otherwise form a
+        // comment opener with their neighbour (cannot happen with the plain pool, kept for safety)
+        let glue_bad = i > 0 && ((prev_regex && term.is_regex()) || (prev_text.ends_with('/') || prev_text.ends_with('*')) && (sample.starts_with('/') || sample.starts_with('*')));
+        if ws.is_empty() && glue_bad {
+            ws.push(' ');
+        }
+        text.push_str(&ws);
+        layouts.push(ws);
+        let s = text.len();
+        text.push_str(sample);
+        spans.push((s, text.len()));
+        prev_regex = term.is_regex();
+        prev_text = sample.clone();
+    }
+    let trail: String = if minimal { String::new() } else { pool[tape.pick(pool.len())].to_string() };
+    text.push_str(&trail);
+    layouts.push(trail);
+    Rendered { text, spans, layouts }
+}
